@@ -698,3 +698,333 @@ theorem lineInv_tok {body : List Nat} {st : LexState} {start : Nat} {t : Token}
     · rw [e]; have := hi.2; simp; omega
 
 end Gql.Text
+
+/-! Part 5: block strings and `read_next_token`. -/
+namespace Gql.Text
+open Spec
+
+/-- What `read_next_token` guarantees about line bookkeeping. -/
+def NextLine (body : List Nat) (r : Token × LexState) : Prop :=
+  (r.1.line, r.1.column) = lineCol body r.1.start ∧ LineInv body r.2 r.1.stop ∧
+    ¬ insideCRLF body r.1.stop ∧ r.1.stop ≤ body.length
+
+theorem slice3_nonl (body : List Nat) (p a b c : Nat) (h : slice body p (p + 3) = [a, b, c])
+    (ha : a ≠ 10 ∧ a ≠ 13) (hb : b ≠ 10 ∧ b ≠ 13) (hc : c ≠ 10 ∧ c ≠ 13) :
+    p + 3 ≤ body.length ∧ NoNL body p (p + 3) := by
+  unfold slice at h
+  have e : p + 3 - p = 3 := by omega
+  rw [e] at h
+  have h0 : (body.drop p)[0]? = some a := by
+    have := congrArg (fun l => l[0]?) h; simpa using this
+  have h1 : (body.drop p)[1]? = some b := by
+    have := congrArg (fun l => l[1]?) h; simpa using this
+  have h2 : (body.drop p)[2]? = some c := by
+    have := congrArg (fun l => l[2]?) h; simpa using this
+  rw [List.getElem?_drop] at h0 h1 h2
+  obtain ⟨l0, n0⟩ := charAt_eq_nonl body p a (by simpa [charAt] using h0) ha
+  obtain ⟨l1, n1⟩ := charAt_eq_nonl body (p + 1) b (by simpa [charAt] using h1) hb
+  obtain ⟨l2, n2⟩ := charAt_eq_nonl body (p + 2) c (by simpa [charAt] using h2) hc
+  exact ⟨by omega, (n0.trans n1).trans n2⟩
+
+/-- Loop invariant of `read_block_string`: `n0` terminators precede the token start, the
+block has seen `blockLines.length` more, and the local `line_start` is the end of the last. -/
+def BlockInv (body : List Nat) (n0 : Nat) (pos lineStart nLines : Nat) : Prop :=
+  (pre body pos).1 = n0 + nLines ∧ lineStart + (pre body pos).2 = pos ∧ ¬ insideCRLF body pos
+
+theorem blockInv_nonl {body : List Nat} {n0 pos ls k q : Nat} (h : BlockInv body n0 pos ls k)
+    (hq : pos ≤ q) (hl : q ≤ body.length) (hn : NoNL body pos q) : BlockInv body n0 q ls k := by
+  obtain ⟨a, b, c⟩ := h
+  obtain ⟨e, hi⟩ := pre_nonl body pos c (q - pos) q (by omega) hl hn
+  refine ⟨by rw [e]; exact a, ?_, hi⟩
+  rw [e]; simp; omega
+
+theorem readBlockStringLoop_line (body : List Nat) (st : LexState) (start pos chunkStart lineStart : Nat)
+    (curLine : List Nat) (blockLines : List (List Nat)) (n0 : Nat)
+    (hst : st.line = 1 + n0) (hp : start < pos) (hpl : pos ≤ body.length)
+    (hinv : BlockInv body n0 pos lineStart blockLines.length) :
+    Post (fun r => r.1.start = start ∧ r.1.line = st.line ∧ r.1.column = 1 + start - st.lineStart ∧
+        LineInv body r.2 r.1.stop ∧ ¬ insideCRLF body r.1.stop ∧ r.1.stop ≤ body.length)
+      (readBlockStringLoop body st start pos chunkStart lineStart curLine blockLines) := by
+  fun_induction readBlockStringLoop body st start pos chunkStart lineStart curLine blockLines
+  · rename_i pos chunkStart lineStart curLine blockLines hlt ih4 ih3 ih2 ih1
+    rw [index_ok _ _ hlt]
+    simp only [Out.bind_ok]
+    have hget : body[pos]? = some body[pos] := List.getElem?_eq_getElem hlt
+    split
+    · -- closing quotes
+      rename_i hq
+      have h0 : charAt body pos = some 34 := by simp [charAt, hget, hq.1]
+      obtain ⟨l0, n0'⟩ := charAt_eq_nonl body pos 34 h0 (by simp)
+      obtain ⟨l1, n1⟩ := slice2_nonl body (pos + 1) 34 34 hq.2 (by simp) (by simp)
+      have hb := blockInv_nonl hinv (q := pos + 3) (by omega) (by omega) (n0'.trans n1)
+      simp only [post_pure]
+      refine ⟨rfl, rfl, rfl, ⟨?_, ?_⟩, ?_, ?_⟩
+      · simp only [mkToken, List.length_append, List.length_singleton, Nat.add_sub_cancel]
+        rw [hb.1, hst]; omega
+      · simpa only [mkToken] using hb.2.1
+      · simpa only [mkToken] using hb.2.2
+      · simp only [mkToken]; omega
+    split
+    · -- escaped triple quote
+      rename_i hq
+      have h0 : charAt body pos = some 92 := by simp [charAt, hget, hq.1]
+      obtain ⟨l0, n0'⟩ := charAt_eq_nonl body pos 92 h0 (by simp)
+      obtain ⟨l1, n1⟩ := slice3_nonl body (pos + 1) 34 34 34 hq.2 (by simp) (by simp) (by simp)
+      exact ih4 body[pos] (by omega) (by omega)
+        (blockInv_nonl hinv (q := pos + 4) (by omega) (by omega) (n0'.trans n1))
+    split
+    · -- line terminator inside the block string
+      rename_i hnl
+      obtain ⟨a, b, c⟩ := hinv
+      by_cases hcrlf : body[pos] = 13 ∧ charAt body (pos + 1) = some 10
+      · have h1 : body[pos]? = some 13 := by rw [hget, hcrlf.1]
+        have h2 : body[pos + 1]? = some 10 := hcrlf.2
+        obtain ⟨l1, _⟩ := charAt_some_get body (pos + 1) 10 hcrlf.2
+        have e := pre_crlf body pos h1 h2
+        have hni : ¬ insideCRLF body (pos + 2) := by
+          intro ⟨_, x, _⟩
+          have : pos + 2 - 1 = pos + 1 := by omega
+          rw [this, h2] at x; cases x
+        have key := ih3 body[pos]
+        simp only [dif_pos hcrlf, if_pos hcrlf] at key ⊢
+        refine key (by omega) (by omega) ⟨?_, ?_, hni⟩
+        · rw [e]; simp only [List.length_append, List.length_singleton]; omega
+        · rw [e]; simp
+      · have hc : body[pos] = 10 ∨ body[pos] = 13 := by rcases hnl with h | h <;> simp [h]
+        have e := pre_step body pos body[pos] hget c
+        rw [if_pos hc] at e
+        have hni : ¬ insideCRLF body (pos + 1) := by
+          intro ⟨_, x, y⟩
+          simp only [Nat.add_sub_cancel] at x
+          rw [hget] at x
+          have x' := Option.some.inj x
+          exact hcrlf ⟨x', y⟩
+        have key := ih3 body[pos]
+        simp only [dif_neg hcrlf, if_neg hcrlf] at key ⊢
+        refine key (by omega) (by omega) ⟨?_, ?_, hni⟩
+        · rw [e]; simp only [List.length_append, List.length_singleton]; omega
+        · rw [e]; simp
+    · rename_i hnl
+      have hc := isScalar_or_not_nl body pos hlt hnl
+      split
+      · exact ih2 (by omega) (by omega)
+          (blockInv_nonl hinv (q := pos + 1) (by omega) (by omega) (nonl_of_get body pos hlt hc))
+      split
+      · rename_i hs
+        obtain ⟨h1, h2, l1, l2⟩ := isSupplementary_spec body pos hs
+        exact ih1 (by omega) (by omega)
+          (blockInv_nonl hinv (q := pos + 2) (by omega) (by omega)
+            ((nonl_of_get body pos hlt hc).trans (nonl_of_get body (pos + 1) h2 (trail_not_nl _ l2))))
+      · simp
+  · simp
+
+end Gql.Text
+
+namespace Gql.Text
+open Spec
+
+theorem readComment_line (body : List Nat) (st : LexState) (start : Nat)
+    (h : charAt body start = some 35) : Post (TokLine body st start) (readComment body st start) := by
+  unfold readComment
+  obtain ⟨l0, n0⟩ := charAt_eq_nonl body start 35 h (by simp)
+  apply post_of_spec
+  · exact (readComment_post body st start l0).noCrash
+  · intro t ht
+    cases hr : readCommentLoop body (start + 1) with
+    | ok p =>
+      obtain ⟨a, b, c⟩ := readCommentLoop_spec body (start + 1) p hr (by omega)
+      simp only [readComment, hr, Out.bind_ok, Out.pure_eq, Out.ok.injEq] at ht
+      subst ht
+      exact ⟨rfl, rfl, rfl, by simp [mkToken]; omega, by simpa [mkToken] using b,
+        by simpa [mkToken] using n0.trans c⟩
+    | err e => simp [readComment, hr] at ht
+    | crash c => simp [readComment, hr] at ht
+
+theorem isNameStart_not_nl (c : Nat) (h : isNameStart c = true) : c ≠ 10 ∧ c ≠ 13 := by
+  unfold isNameStart isLetter at h
+  constructor <;> (intro e; subst e; simp at h)
+
+theorem readName_line (body : List Nat) (st : LexState) (start c : Nat)
+    (h : charAt body start = some c) (hc : isNameStart c = true) :
+    Post (TokLine body st start) (readName body st start) := by
+  obtain ⟨l0, n0⟩ := charAt_eq_nonl body start c h (isNameStart_not_nl c hc)
+  apply post_of_spec
+  · exact (readName_post body st start l0).noCrash
+  · intro t ht
+    cases hr : readNameLoop body (start + 1) with
+    | ok p =>
+      obtain ⟨a, b, d⟩ := readNameLoop_spec body (start + 1) p hr (by omega)
+      simp only [readName, hr, Out.bind_ok, Out.pure_eq, Out.ok.injEq] at ht
+      subst ht
+      exact ⟨rfl, rfl, rfl, by simp [mkToken]; omega, by simpa [mkToken] using b,
+        by simpa [mkToken] using n0.trans d⟩
+    | err e => simp [readName, hr] at ht
+    | crash c => simp [readName, hr] at ht
+
+theorem readBlockString_line (body : List Nat) (st : LexState) (start : Nat)
+    (h0 : charAt body start = some 34) (h1 : slice body (start + 1) (start + 3) = [34, 34])
+    (hi : LineInv body st start) (hin : ¬ insideCRLF body start) :
+    Post (NextLine body) (readBlockString body st start) := by
+  unfold readBlockString
+  obtain ⟨l0, n0⟩ := charAt_eq_nonl body start 34 h0 (by simp)
+  obtain ⟨l1, n1⟩ := slice2_nonl body (start + 1) 34 34 h1 (by simp) (by simp)
+  obtain ⟨e, hi'⟩ := pre_nonl body start hin 3 (start + 3) rfl (by omega) (n0.trans n1)
+  have hinv : BlockInv body (pre body start).1 (start + 3) st.lineStart ([] : List (List Nat)).length := by
+    refine ⟨by rw [e]; simp, ?_, hi'⟩
+    rw [e]; have := hi.2; simp; omega
+  refine (readBlockStringLoop_line body st start (start + 3) (start + 3) st.lineStart [] []
+    (pre body start).1 hi.1 (by omega) (by omega) hinv).mono ?_
+  intro r hr
+  obtain ⟨a, b, c, d, f, g⟩ := hr
+  refine ⟨?_, d, f, g⟩
+  rw [a, lineCol_eq_pre body start (by omega) hin, b, c, hi.1]
+  have := hi.2
+  congr 1; omega
+
+theorem nextLine_of_tok {body : List Nat} {st : LexState} {start : Nat} {x : LexOut Token}
+    (hi : LineInv body st start) (hin : ¬ insideCRLF body start) (hs : start ≤ body.length)
+    (hx : Post (TokLine body st start) x) :
+    Post (NextLine body) (x >>= fun t => pure (t, st)) := by
+  refine hx.bind ?_
+  intro t ht
+  simp only [post_pure]
+  exact lineInv_tok hi hin hs ht
+
+end Gql.Text
+
+namespace Gql.Text
+open Spec
+
+theorem readNextToken_line (body : List Nat) (st : LexState) (pos : Nat) (hp : pos ≤ body.length)
+    (hi : LineInv body st pos) (hin : ¬ insideCRLF body pos) :
+    Post (NextLine body) (readNextToken body st pos) := by
+  fun_induction readNextToken body st pos
+  · rename_i st pos h ih3 ih2 ih1
+    rw [index_ok _ _ h, Out.bind_ok]
+    have hget : body[pos]? = some body[pos] := List.getElem?_eq_getElem h
+    have hc0 : charAt body pos = some body[pos] := by simp [charAt, h]
+    have hstep := pre_step body pos body[pos] hget hin
+    generalize body[pos] = c at hc0 hget hstep ⊢
+    have plain : c ≠ 10 → c ≠ 13 → LineInv body st (pos + 1) ∧ ¬ insideCRLF body (pos + 1) := by
+      intro h10 h13
+      rw [if_neg (by intro x; rcases x with x | x <;> contradiction)] at hstep
+      refine ⟨⟨by rw [hstep]; exact hi.1, by rw [hstep]; have := hi.2; simp; omega⟩, ?_⟩
+      obtain ⟨hl, hg⟩ := charAt_some_get body pos c hc0
+      exact not_inside_succ body pos hl (by rw [hg]; exact h13)
+    refine Post.ite (fun hw => ?_) (fun _ => ?_)
+    · have := plain (by rcases hw with x | x | x | x <;> simp [x])
+        (by rcases hw with x | x | x | x <;> simp [x])
+      exact ih3 (by omega) this.1 this.2
+    refine Post.ite (fun hlf => ?_) (fun _ => ?_)
+    · rw [if_pos (Or.inl hlf)] at hstep
+      obtain ⟨hl, hg⟩ := charAt_some_get body pos c hc0
+      refine ih2 (by omega) ⟨by rw [hstep]; have := hi.1; simp; omega, by rw [hstep]; simp⟩ ?_
+      exact not_inside_succ body pos hl (by rw [hg, hlf]; simp)
+    refine Post.ite (fun hcr => ?_) (fun _ => ?_)
+    · refine Post.ite (fun hc => ?_) (fun hnc => ?_)
+      · obtain ⟨hl1, hg1⟩ := charAt_some_get body (pos + 1) 10 hc
+        have e := pre_crlf body pos (by rw [hget, hcr]) hc
+        refine ih1 (by omega) ⟨by rw [e]; have := hi.1; simp; omega, by rw [e]; simp⟩ ?_
+        intro ⟨_, x, _⟩
+        have : pos + 2 - 1 = pos + 1 := by omega
+        rw [this] at x
+        have hc' : body[pos + 1]? = some 10 := hc
+        rw [hc'] at x; cases x
+      · rw [if_pos (Or.inr hcr)] at hstep
+        refine ih2 (by omega) ⟨by rw [hstep]; have := hi.1; simp; omega, by rw [hstep]; simp⟩ ?_
+        intro ⟨_, _, y⟩
+        exact hnc y
+    refine Post.ite (fun hh => ?_) (fun _ => ?_)
+    · exact nextLine_of_tok hi hin hp (readComment_line body st pos (by rw [hc0, hh]))
+    refine Post.ite (fun hq => ?_) (fun _ => ?_)
+    · refine Post.ite (fun hq3 => ?_) (fun _ => ?_)
+      · exact readBlockString_line body st pos (by rw [hc0, hq]) hq3 hi hin
+      · exact nextLine_of_tok hi hin hp (readString_line body st pos (by rw [hc0, hq]))
+    have tok1 : ∀ k c', charAt body pos = some c' → c' ≠ 10 ∧ c' ≠ 13 →
+        NextLine body (mkToken st k pos (pos + 1) none, st) := by
+      intro k c' hc' hn
+      obtain ⟨l0, n0⟩ := charAt_eq_nonl body pos c' hc' hn
+      exact lineInv_tok hi hin hp ⟨rfl, rfl, rfl, by simp [mkToken], by simp [mkToken]; omega,
+        by simpa [mkToken] using n0⟩
+    cases hk : punctKind c with
+    | some k =>
+      simp only [post_pure]
+      refine tok1 k c hc0 ?_
+      constructor <;> (intro e; subst e; simp [punctKind] at hk)
+    | none =>
+    simp only []
+    refine Post.ite (fun hd => ?_) (fun _ => ?_)
+    · exact nextLine_of_tok hi hin hp (readNumber_line body st pos c hc0
+        (by rcases hd with x | x; exact Or.inl x; exact Or.inr x))
+    refine Post.ite (fun hn => ?_) (fun _ => ?_)
+    · exact nextLine_of_tok hi hin hp (readName_line body st pos c hc0 hn)
+    extract_lets dotErr
+    refine Post.ite (fun hc => ?_) (fun _ => ?_)
+    · simp only [post_pure]
+      obtain ⟨l0, n0⟩ := charAt_eq_nonl body pos 46 (by rw [hc0, hc.1]) (by simp)
+      obtain ⟨l1, n1⟩ := charAt_eq_nonl body (pos + 1) 46 hc.2.1 (by simp)
+      obtain ⟨l2, n2⟩ := charAt_eq_nonl body (pos + 2) 46 hc.2.2 (by simp)
+      exact lineInv_tok hi hin hp ⟨rfl, rfl, rfl, by simp [mkToken], by simp [mkToken]; omega,
+        by simpa [mkToken] using (n0.trans n1).trans n2⟩
+    split
+    · refine Post.ite (fun _ => ?_) (fun _ => ?_)
+      · refine (show Post (fun _ => True) (dotDigitsLoop body (pos + 1)) from
+          (digitsLoop_post body (pos + 1) (by omega)).mono (fun _ _ => trivial)).bind ?_
+        intro _ _; simp
+      · simp
+    · repeat' split
+      all_goals simp
+  · rename_i st pos h
+    have hp' : pos = body.length := by omega
+    subst hp'
+    simp only [post_pure]
+    refine ⟨?_, hi, hin, Nat.le_refl _⟩
+    simp only [mkToken]
+    rw [lineCol_eq_pre body body.length (Nat.le_refl _) hin, hi.1]
+    have := hi.2
+    congr 1; omega
+
+end Gql.Text
+
+namespace Gql.Text
+open Spec
+
+theorem lexAllAux_line (body : List Nat) (fuel : Nat) (st : LexState) (pos : Nat) (acc : List Token)
+    (hp : pos ≤ body.length) (hi : LineInv body st pos) (hin : ¬ insideCRLF body pos)
+    (hacc : ∀ t ∈ acc, (t.line, t.column) = lineCol body t.start) (ts : List Token)
+    (h : lexAllAux body fuel st pos acc = .ok ts) :
+    ∀ t ∈ ts, (t.line, t.column) = lineCol body t.start := by
+  induction fuel generalizing st pos acc with
+  | zero => simp [lexAllAux] at h
+  | succ fuel ih =>
+    simp only [lexAllAux] at h
+    cases hr : readNextToken body st pos with
+    | err e => simp [hr] at h
+    | crash c => simp [hr] at h
+    | ok r =>
+      obtain ⟨h1, h2, h3, h4⟩ := (readNextToken_line body st pos hp hi hin).of_ok hr
+      simp only [hr, Out.bind_ok] at h
+      split at h
+      · simp only [Out.pure_eq, Out.ok.injEq] at h
+        subst h
+        intro t ht
+        rcases List.mem_append.mp ht with h | h
+        · exact hacc t h
+        · simp only [List.mem_singleton] at h; subst h; exact h1
+      · split at h
+        · exact ih r.2 r.1.stop acc h4 h2 h3 hacc h
+        · refine ih r.2 r.1.stop (acc ++ [r.1]) h4 h2 h3 ?_ h
+          intro t ht
+          rcases List.mem_append.mp ht with h | h
+          · exact hacc t h
+          · simp only [List.mem_singleton] at h; subst h; exact h1
+
+/-- C10-2. Every token the lexer returns carries the true line and column of its start. -/
+theorem lexAll_line (body : List Nat) (ts : List Token) (h : lexAll body = .ok ts) :
+    ∀ t ∈ ts, (t.line, t.column) = lineCol body t.start := by
+  unfold lexAll at h
+  refine lexAllAux_line body _ {} 0 [] (Nat.zero_le _) ?_ ?_ (by simp) ts h
+  · constructor <;> simp [pre, scan]
+  · intro ⟨h0, _⟩; omega
+
+end Gql.Text
